@@ -65,6 +65,25 @@ func libGet(b *trav.Built, p datamodel.Path) (v ref.Val, status string, detail s
 	if !ref.Equal(v, v2) {
 		return v, "get≠focus", fmt.Sprintf("Get %s, Focus %s", v, v2)
 	}
+	if len(b.Links) == 0 && !strings.Contains(b.Spec.String(), "<") {
+		// no links anywhere: the package-level functions (a zero Progress) resolve the same paths
+		var n3, n4 datamodel.Node
+		var err3, err4 error
+		if pan := core.Guard(func() {
+			n3, err3 = traversal.Get(b.Root, p)
+			err4 = traversal.Focus(b.Root, p, func(_ traversal.Progress, x datamodel.Node) error { n4 = x; return nil })
+		}); pan != "" {
+			return ref.Val{}, "panic", "package-level Get/Focus: " + pan
+		}
+		if err3 != nil || err4 != nil {
+			return v, "get≠focus", fmt.Sprintf("package-level traversal.Get err %v, traversal.Focus err %v, Progress.Get succeeded", err3, err4)
+		}
+		v3, _ := ref.Read1(n3)
+		v4, _ := ref.Read1(n4)
+		if !ref.Equal(v, v3) || !ref.Equal(v, v4) {
+			return v, "get≠focus", fmt.Sprintf("Progress.Get %s, package-level traversal.Get %s, traversal.Focus %s", v, v3, v4)
+		}
+	}
 	return v, "ok", ""
 }
 
@@ -265,6 +284,18 @@ func graphs(quick bool) []trav.GraphSpec {
 	}
 	pre := ref.Map(ref.E("a", ref.List(ref.Int(1))), ref.E("ab", ref.List(ref.Int(2), ref.Int(3))), ref.E("abc", ref.Map(ref.E("a", ref.Int(4)))), ref.E("10", wide))
 	out = append(out, trav.GraphSpec{Tree: wide}, trav.GraphSpec{Tree: wide, Cuts: []int{2, 12}}, trav.GraphSpec{Tree: pre}, trav.GraphSpec{Tree: pre, Cuts: []int{1, 3}})
+	// keys that look like escape sequences of other path syntaxes (JSON pointer ~0 ~1, percent-encoding,
+	// backslash, dot segments, query and fragment marks): a path is its segments joined by slashes,
+	// nothing is escaped and nothing is unescaped
+	esc := ref.Map()
+	for i, k := range EscapeLooking {
+		var v ref.Val = ref.Int(int64(i))
+		if i%3 == 0 {
+			v = ref.Map(ref.E(EscapeLooking[(i+1)%len(EscapeLooking)], ref.Int(int64(i))))
+		}
+		esc.M = append(esc.M, ref.E(k, v))
+	}
+	out = append(out, trav.GraphSpec{Tree: esc}, trav.GraphSpec{Tree: esc, Cuts: []int{1, 5}})
 	// combs: siblings before and after the deep child at every depth, so that a path retained from
 	// one visit is resolved after the walk went on to its siblings and their descendants
 	depth := 6
@@ -414,6 +445,9 @@ func Main(r *core.Run) {
 	r.Sample(Case{Mode: "visit", Graph: gs[len(gs)/2], Sel: ss[len(ss)-1]})
 }
 
+// EscapeLooking: segments a lenient parser might take for escapes.
+var EscapeLooking = []string{"~0", "~1", "~", "a~1b", "~01", "%2F", "%2f", "%", "%25", "\\", "a\\b", "..", ".", "+", "a b", " ", "?", "a?b", "#", "a#b", "&", "=", ":", "a:b", "*"}
+
 type SegCase struct {
 	Segs []string `json:"segments_hex"`
 }
@@ -499,6 +533,13 @@ func segmentStrings(r *core.Run) {
 			for _, c := range short {
 				run([]string{a, b, c})
 			}
+		}
+	}
+	for _, a := range EscapeLooking {
+		run([]string{a})
+		for _, b := range append([]string{"a", "0"}, EscapeLooking...) {
+			run([]string{a, b})
+			run([]string{b, a, b})
 		}
 	}
 	// Equals is an equivalence consistent with the string form
